@@ -23,6 +23,7 @@ RULES = {
     "C08.R1": lambda ctx: bldrules.index_lookup(ctx, "C08.R1"),
     "C08.R2": lambda ctx: bldrules.flatten_translation(ctx, "C08.R2"),
     "C08.R3": lambda ctx: bldrules.flatten_translation(ctx, "C08.R3"),
+    "C08.R3b": lambda ctx: bldrules.contents_predicates(ctx, "C08.R3b"),
     "C08.R5": lambda ctx: bldrules.sections_sorted(ctx, "C08.R5"),
     "C08.R6": r6,
 }
